@@ -548,14 +548,22 @@ def evaluate_payload_template(input, context, template):
                 raise IntrinsicFailure(
                     "States.MathRandom failed, requires two or three arguments"
                 )
-            # The last argument controls the seed value and is optional.
-            if len(args) == 3:
-                # https://docs.python.org/3/library/random.html#random.seed
-                random.seed(args[2])
             if not isinstance(args[0], int) or not isinstance(args[1], int):
                 raise IntrinsicFailure(
                     "States.MathRandom failed, args[0] and args[1] must be integers."
                 )
+            if args[0] >= args[1]:
+                raise IntrinsicFailure(
+                    "States.MathRandom failed, args[0] must be less than args[1]."
+                )
+            # The last argument controls the seed value and is optional.
+            if len(args) == 3:
+                if not isinstance(args[2], (int, float, str)) or isinstance(args[2], bool):
+                    raise IntrinsicFailure(
+                        "States.MathRandom failed, args[2] must be a number or a string."
+                    )
+                # https://docs.python.org/3/library/random.html#random.seed
+                random.seed(args[2])
 
             # States.MathRandom has inclusive start and exclusive end number
             # https://docs.aws.amazon.com/step-functions/latest/dg/amazon-states-language-intrinsic-functions.html#asl-intrsc-func-math-operation
